@@ -219,10 +219,6 @@ def outline_problem(font, name, A, B, tol, max_shift):
         # right except for ONE common horizontal shift: fontTools aligns xMin to the left side bearing for simple
         # glyphs only (Glyph.draw ignores `offset` for composites)
         known = "[known:C05-composite-not-shifted-to-lsb]"
-    elif composite and len(font["glyf"][name].components) == 1 and font["glyf"][name].components[0].flags & 0x800 \
-            and outline_diff(A, B, tol, 1e9, free_y=True) is None:
-        # single component with SCALED_COMPONENT_OFFSET: right except for one translation (the unscaled offset)
-        known = "[known:C05-scaled-component-offset-ignored]"
     return known + "outline: " + d
 
 
